@@ -53,8 +53,77 @@ class LifterModel(object):
         self.opmodes = opmodes
         self.rich = rich
         self._jcc = self._eval_list(self.eh, 'jcc')
+        self._dispatch = self._read_dispatch()
         self.instances = []
         self._build_instances()
+
+    def _read_dispatch(self):
+        """The if/elif chain of emul_helper.get_instr_expr_args, read from the source: [(names or predicate, argument pattern)].  Every branch must have one
+        of the shapes this model can apply, otherwise the analysis stops (the lifted templates would no longer be the ones the repository builds)."""
+        fn = self.eh.func('get_instr_expr_args')
+        params = [a.arg for a in fn.args.args]
+        if params[:3] != ['l', 'args', 'my_eip']:
+            raise AnalysisError('get_instr_expr_args%r: unmodelled signature' % (tuple(params),))
+        chain = [st for st in fn.body if isinstance(st, ast.If)]
+        # (after the dispatch: the count register of a repeated string instruction, selected by the prefix -- C08.D7; instances here carry no prefix)
+        if not chain or not all('is_rep_string' in ast.unparse(c.test) or '.prefix' in ast.unparse(c.test) for c in chain[1:]):
+            raise AnalysisError('get_instr_expr_args: unmodelled statements (%d if-statements)' % len(chain))
+        out = []
+
+        def call_shape(call):
+            if not (isinstance(call, ast.Call)):
+                return None
+            callee = ast.unparse(call.func)
+            if callee not in ('mnemo_func[l.m.name]', 'MMXnoflags'):
+                return None
+            shape = tuple(ast.unparse(a) for a in call.args)
+            if shape[:1] not in (('l',), ('info',)):
+                return None
+            shape = ('l',) + shape[1:]
+            if shape not in (('l', 'args[0]'), ('l', '*args'), ('l', 'my_eip', 'args[0]'), ('l', 'my_eip', '*args')):
+                return None
+            return (callee, shape)
+        node = chain[0]
+        while True:
+            test = ast.unparse(node.test)
+            body = [st for st in node.body if not (isinstance(st, ast.Expr) and isinstance(st.value, ast.Constant))]
+            names = None
+            if isinstance(node.test, ast.Compare) and ast.unparse(node.test.left) == 'l.m.name' and isinstance(node.test.ops[0], ast.In):
+                c = node.test.comparators[0]
+                if isinstance(c, ast.List):
+                    names = [e.value for e in c.elts]
+                elif isinstance(c, ast.Name) and c.id == 'mnemo_func':
+                    names = 'mnemo_func'
+                elif isinstance(c, ast.Name):
+                    names = self._eval_list(self.eh, c.id)
+            elif test == "'#' in l.m.name":
+                names = '#'
+            if names is None:
+                raise AnalysisError('get_instr_expr_args: unmodelled branch test `%s`' % test)
+            if len(body) == 1 and isinstance(body[0], ast.Assign) and ast.unparse(body[0].targets[0]) == 'e' and call_shape(body[0].value):
+                out.append((names, None, call_shape(body[0].value)))
+            elif len(body) == 1 and isinstance(body[0], ast.If) and ast.unparse(body[0].test) == 'isinstance(args[0], ExprInt)' and len(body[0].body) == 1 and len(body[0].orelse) == 1 \
+                    and call_shape(body[0].body[0].value) and call_shape(body[0].orelse[0].value):
+                out.append((names, 'first-is-int', (call_shape(body[0].body[0].value), call_shape(body[0].orelse[0].value))))
+            else:
+                raise AnalysisError('get_instr_expr_args: unmodelled branch body under `%s`' % test)
+            if len(node.orelse) == 1 and isinstance(node.orelse[0], ast.If):
+                node = node.orelse[0]
+                continue
+            # the final else: the failing lookup (raises KeyError for a mnemonic without lifter)
+            break
+        return out
+
+    def call_pattern(self, name, args):
+        """argument list pattern get_instr_expr_args uses for this mnemonic: a tuple like ('l', 'my_eip', 'args[0]')"""
+        for names, cond, shape in self._dispatch:
+            hit = (names == 'mnemo_func' and name in self.mnemo_func) or (names == '#' and '#' in name) or (isinstance(names, list) and name in names)
+            if not hit:
+                continue
+            if cond == 'first-is-int':
+                return shape[0][1] if (args and isinstance(args[0], TInt)) else shape[1][1]
+            return shape[1]
+        return ('l', '*args')
 
     def _eval_list(self, mod, name):
         from .consteval import Evaluator
@@ -363,15 +432,18 @@ class LifterModel(object):
             if self.concrete:
                 info.offset = 0
             name = inst.name
-            if name == 'jmp':
-                call_args = [info, args[0]] if (args and isinstance(args[0], TInt)) else [info] + args
-            elif name in self._jcc or name == 'call':
-                if not args:
-                    inst.results = [([], LiftError('IndexError', 'get_instr_expr_args: args[0] on an instruction without operand', None))]
-                    return inst
-                call_args = [info, my_eip, args[0]]
-            else:
-                call_args = [info] + args
+            pat = self.call_pattern(name, args)
+            if 'args[0]' in pat and not args:
+                inst.results = [([], LiftError('IndexError', 'get_instr_expr_args: args[0] on an instruction without operand', None))]
+                return inst
+            call_args = [info]
+            for p_ in pat[1:]:
+                if p_ == 'my_eip':
+                    call_args.append(my_eip)
+                elif p_ == 'args[0]':
+                    call_args.append(args[0])
+                else:
+                    call_args += args
             inst.results = I.run(f, call_args)
         except LiftUnknown as e:
             inst.unknown = str(e)
